@@ -4,24 +4,24 @@ KM_DEFAULT, KM_L1, TREE, GNB, MNB, ENET, OLS, SCALER, SVM = range(9)
 quick = [
     # default k-means builder (seed 42, L2): the convergence test goes through L2Dist::distance, which
     # concretises; both fits of one run see the same shadow value, so identity between fits is unaffected
-    job("c20.twice", secs=120, jobs=4, allow=("concretised",), model=KM_DEFAULT, n=3, d=1, reps=3),
-    job("c20.twice", secs=120, jobs=4, model=KM_L1, n=3, d=1, reps=3),
+    job("c20.twice", xproc=40, secs=120, jobs=4, allow=("concretised",), model=KM_DEFAULT, n=3, d=1, reps=3),
+    job("c20.twice", xproc=40, secs=120, jobs=4, model=KM_L1, n=3, d=1, reps=3),
 ]
 for pattern in (0b0110, 0b0011, 0b0101, 0b1110):
-    quick.append(job("c20.twice", secs=60, model=TREE, n=3, d=1, reps=6, pattern=pattern))
-    quick.append(job("c20.twice", secs=90, jobs=2, model=TREE, n=4, d=1, reps=6, pattern=pattern))
-    quick.append(job("c20.twice", secs=60, model=MNB, n=3, d=2, reps=6, pattern=pattern))
-quick.append(job("c20.twice", secs=60, model=SCALER, n=3, d=2, reps=3))
-quick.append(job("c20.twice", secs=60, allow=("div0",), model=OLS, n=3, d=1, reps=3))
-quick.append(job("c20.twice", secs=60, allow=("inexact",), model=ENET, n=2, d=1, reps=2, qto=2000))
+    quick.append(job("c20.twice", xproc=40, secs=60, model=TREE, n=3, d=1, reps=6, pattern=pattern))
+    quick.append(job("c20.twice", xproc=40, secs=90, jobs=2, model=TREE, n=4, d=1, reps=6, pattern=pattern))
+    quick.append(job("c20.twice", xproc=40, secs=60, model=MNB, n=3, d=2, reps=6, pattern=pattern))
+quick.append(job("c20.twice", xproc=40, secs=60, model=SCALER, n=3, d=2, reps=3))
+quick.append(job("c20.twice", xproc=40, secs=60, allow=("div0",), model=OLS, n=3, d=1, reps=3))
+quick.append(job("c20.twice", xproc=40, secs=60, allow=("inexact",), model=ENET, n=2, d=1, reps=2, qto=2000))
 
 thorough = list(quick)
 for pattern in (0b0110, 0b0011, 0b0101, 0b01110, 0b10010):
-    thorough.append(job("c20.twice", secs=600, jobs=8, model=TREE, n=5, d=1, reps=8, pattern=pattern))
-    thorough.append(job("c20.twice", secs=600, jobs=8, model=TREE, n=4, d=2, reps=8, pattern=pattern))
-    thorough.append(job("c20.twice", secs=300, jobs=2, model=GNB, n=3, d=1, reps=4, pattern=pattern, qto=3000))
-thorough.append(job("c20.twice", secs=600, jobs=8, model=KM_L1, n=4, d=1, reps=3))
-thorough.append(job("c20.twice", secs=300, jobs=4, model=ENET, n=3, d=1, reps=3, qto=3000))
-thorough.append(job("c20.twice", secs=300, jobs=4, model=SVM, n=3, d=1, reps=3, qto=3000))
+    thorough.append(job("c20.twice", xproc=40, secs=600, jobs=8, model=TREE, n=5, d=1, reps=8, pattern=pattern))
+    thorough.append(job("c20.twice", xproc=40, secs=600, jobs=8, model=TREE, n=4, d=2, reps=8, pattern=pattern))
+    thorough.append(job("c20.twice", xproc=40, secs=300, jobs=2, model=GNB, n=3, d=1, reps=4, pattern=pattern, qto=3000))
+thorough.append(job("c20.twice", xproc=40, secs=600, jobs=8, model=KM_L1, n=4, d=1, reps=3))
+thorough.append(job("c20.twice", xproc=40, secs=300, jobs=4, model=ENET, n=3, d=1, reps=3, qto=3000))
+thorough.append(job("c20.twice", xproc=40, secs=300, jobs=4, model=SVM, n=3, d=1, reps=3, qto=3000))
 
 REG = {"C20": {"quick": quick, "thorough": thorough}}
